@@ -21,10 +21,13 @@ type GenOpts struct {
 	Backup       bool // Backup calls with injected writers, each backup opened afterwards
 	Scans        bool // scans stepped call by call between writes
 	MoreReopen   bool
-	Tear         bool // simulated unclean shutdowns with a torn tail
-	AfterCompact bool // C15: Sync, Put, Delete, Backup after every Compact
-	Open2        bool // competing Open calls while the database is open
-	Churn        bool // start by filling most keys, then delete / re-put (index chains with holes)
+	CompactHeavy bool     // phases of: fill segments with live + overwritten records, compact, a few writes
+	Fresh        []string // pool of never-used keys (same hash classes): bursts after restarts, swap sessions
+	Sessions     bool     // restart-centred patterns: compaction-only sessions, equal-count sessions, bursts after reopen
+	Tear         bool     // simulated unclean shutdowns with a torn tail
+	AfterCompact bool     // C15: Sync, Put, Delete, Backup after every Compact
+	Open2        bool     // competing Open calls while the database is open
+	Churn        bool     // start by filling most keys, then delete / re-put (index chains with holes)
 }
 
 // GenProgram draws a random program.
@@ -95,7 +98,11 @@ func GenProgram(rng *rand.Rand, id string, cfg Cfg, g GenOpts) *Program {
 				continue
 			}
 			var ops []Op
-			for n := 1 + rng.Intn(2); n > 0; n-- {
+			burst := 1 + rng.Intn(2)
+			if rng.Intn(4) == 0 {
+				burst = 4 + rng.Intn(8) // enough to roll the log over inside one gap
+			}
+			for n := burst; n > 0; n-- {
 				switch rng.Intn(6) {
 				case 0:
 					ops = append(ops, Op{Op: "get", K: pickLive()})
@@ -109,8 +116,89 @@ func GenProgram(rng *rand.Rand, id string, cfg Cfg, g GenOpts) *Program {
 		}
 		return ins
 	}
+	fresh := append([]string(nil), g.Fresh...)
+	takeFresh := func() (string, bool) {
+		if len(fresh) == 0 {
+			return "", false
+		}
+		k := fresh[0]
+		fresh = fresh[1:]
+		return k, true
+	}
 	for len(p.Ops) < g.Ops {
 		x := rng.Intn(100)
+		if g.CompactHeavy && rng.Intn(6) == 0 {
+			// several segments' worth of records, part of them overwritten, then a compaction whose
+			// promoted records overflow the current segment
+			for n := 6 + rng.Intn(10); n > 0; n-- {
+				k := pick()
+				p.Ops = append(p.Ops, Op{Op: "put", K: k, V: fmt.Sprintf("c%d_", len(p.Ops)), VL: 100 + rng.Intn(500)})
+				live[k] = true
+			}
+			p.Ops = append(p.Ops, Op{Op: "compact"})
+			if rng.Intn(2) == 0 {
+				p.Ops = append(p.Ops, Op{Op: "sync"})
+			}
+			continue
+		}
+		if g.Sessions && rng.Intn(3) == 0 {
+			switch rng.Intn(3) {
+			case 0:
+				// a session that only compacts
+				p.Ops = append(p.Ops, Op{Op: "reopen"}, Op{Op: "compact"}, Op{Op: "reopen"})
+			case 1:
+				// a session that ends with the key count it started with: m keys out, m new keys in
+				// (the new keys share a hash class: their chain overflows, buckets come from the free list)
+				m := 1 + rng.Intn(34)
+				if m > len(live) {
+					m = len(live)
+				}
+				if m > len(fresh) {
+					m = len(fresh)
+				}
+				if m > 0 {
+					p.Ops = append(p.Ops, Op{Op: "reopen"})
+					for j := 0; j < m; j++ {
+						old := pickLive()
+						for !live[old] {
+							old = pickLive()
+						}
+						delete(live, old)
+						p.Ops = append(p.Ops, Op{Op: "del", K: old})
+					}
+					for j := 0; j < m; j++ {
+						k, _ := takeFresh()
+						p.Ops = append(p.Ops, Op{Op: "put", K: k, V: "s"})
+						live[k] = true
+						g.Keys = append(g.Keys, k)
+					}
+					p.Ops = append(p.Ops, Op{Op: "reopen"})
+					if rng.Intn(2) == 0 {
+						// ... and the next session allocates overflow buckets from whatever free list was reloaded
+						for n := 32 + rng.Intn(40); n > 0; n-- {
+							if k, ok := takeFresh(); ok {
+								p.Ops = append(p.Ops, Op{Op: "put", K: k, V: "b"})
+								live[k] = true
+								g.Keys = append(g.Keys, k)
+							}
+						}
+						p.Ops = append(p.Ops, Op{Op: "readall"})
+					}
+				}
+			case 2:
+				// a burst of new keys right after a restart: overflow buckets are allocated from the reloaded free list
+				p.Ops = append(p.Ops, Op{Op: "reopen"})
+				for n := 20 + rng.Intn(40); n > 0; n-- {
+					if k, ok := takeFresh(); ok {
+						p.Ops = append(p.Ops, Op{Op: "put", K: k, V: "f"})
+						live[k] = true
+						g.Keys = append(g.Keys, k)
+					}
+				}
+				p.Ops = append(p.Ops, Op{Op: "readall"})
+			}
+			continue
+		}
 		switch {
 		case x < 42:
 			k := pick()
@@ -158,7 +246,16 @@ func GenProgram(rng *rand.Rand, id string, cfg Cfg, g GenOpts) *Program {
 			if g.Backup && rng.Intn(2) == 0 {
 				nbk++
 				dir := fmt.Sprintf("bk%d-%s", nbk, id)
-				p.Ops = append(p.Ops, Op{Op: "backup", T: 1, Dir: dir, Inject: injections(8)}, Op{Op: "backup_open", Dir: dir})
+				ins := injections(8)
+				if rng.Intn(2) == 0 {
+					// a burst right after the capture of the segment sizes: the log rolls over while Backup copies
+					var ops []Op
+					for n := 5 + rng.Intn(12); n > 0; n-- {
+						ops = append(ops, writeOp())
+					}
+					ins = append([]Inject{{At: 1, Ops: ops}}, ins...)
+				}
+				p.Ops = append(p.Ops, Op{Op: "backup", T: 1, Dir: dir, Inject: ins}, Op{Op: "backup_open", Dir: dir})
 			}
 			if g.Scans && rng.Intn(2) == 0 {
 				nscan++
@@ -187,7 +284,19 @@ func GenProgram(rng *rand.Rand, id string, cfg Cfg, g GenOpts) *Program {
 			}
 		case x < 97:
 			if g.CrashAt {
-				p.Ops = append(p.Ops, Op{Op: "crashat", N: rng.Intn(5), Cut: rng.Intn(3)})
+				if rng.Intn(3) == 0 {
+					// the process dies in the middle of a record that straddles a sector boundary with
+					// only 1-7 bytes (a partial header) in front of the boundary
+					k := pick()
+					p.Ops = append(p.Ops, Op{Op: "palign", K: k, V: fmt.Sprintf("a%d_", len(p.Ops)), N: 1 + rng.Intn(7)},
+						Op{Op: "crashat", N: 0, Cut: 1})
+					live[k] = true
+					k2 := pick()
+					p.Ops = append(p.Ops, Op{Op: "put", K: k2, V: fmt.Sprintf("t%d_", len(p.Ops)), VL: 200 + rng.Intn(400)})
+					live[k2] = true
+				} else {
+					p.Ops = append(p.Ops, Op{Op: "crashat", N: rng.Intn(5), Cut: rng.Intn(3)})
+				}
 			}
 		default:
 			// overwrite a live key right away (delete-then-reput patterns)
